@@ -413,35 +413,75 @@ def r5_bridges(ctx, repo):
     if fn is None:
         raise AnalysisError("Evaluator.evaluate_scalar not found")
     selfn, vec = func_params(fn)[:2]
-    body = fn.body
-    new = [s for s in body if isinstance(s, ast.Assign) and isinstance(s.value, ast.Call) and (access_path(s.value.func) or "").startswith("Individual")]
+    # path by path: every way the bridge returns a number to the optimiser has built an individual from the queried point,
+    # recorded it once, evaluated it once and returns the signed cost of THAT individual
     problems = []
-    if len(new) != 1:
-        problems.append("no single Individual built from the queried point")
-    else:
-        iv = access_path(new[0].targets[0])
-        a = new[0].value.args
-        if not (a and vec in {n_.id for n_ in ast.walk(a[0]) if isinstance(n_, ast.Name)}):
-            problems.append("the individual is not built from the queried vector")
-        TS = Terms(fn)
+    unknown_memo = None
+    npaths = 0
+    for p in Enumerator(loop_counts=(0, 1)).function_paths(fn):
+        if p.outcome == "raise":
+            continue
+        npaths += 1
+        env = PathEnv(fn, p.events)
+        stmts_ = [(i, e.node) for i, e in enumerate(p.events) if e.kind == "stmt"]
+        new = [(i, s) for i, s in stmts_ if isinstance(s, ast.Assign) and isinstance(s.value, ast.Call) and (access_path(s.value.func) or "").startswith("Individual")]
+        pp = []
+        if len(new) != 1:
+            pp.append("no single Individual built from the queried point")
+        else:
+            iv = access_path(new[0][1].targets[0])
+            a = new[0][1].value.args
+            if not (a and vec in {n_.id for n_ in ast.walk(a[0]) if isinstance(n_, ast.Name)}):
+                pp.append("the individual is not built from the queried vector")
 
-        def fpath(c, s):
-            # the called path with local aliases (problem = self.algorithm.problem) looked through
-            return access_path(TS.expand(c.func, at=s)) or ""
-        rec = [i for i, s in enumerate(body) if any(fpath(c, s).endswith(".problem.individuals.append") and c.args and access_path(c.args[0]) == iv for c in calls_in(s))]
-        evs = [i for i, s in enumerate(body) for c in calls_in(s) if fpath(c, s).endswith(".evaluate") and "job" in fpath(c, s)]
-        if evs and not any(fpath(c, s) == selfn + ".job.evaluate" and c.args and access_path(c.args[0]) == iv for s in body for c in calls_in(s)):
-            problems.append("the evaluated object is not the recorded individual")
-        rets = [s for s in body if isinstance(s, ast.Return)]
-        if len(rec) != 1:
-            problems.append("the queried point is recorded %d times in problem.individuals" % len(rec))
-        if len(evs) != 1:
-            problems.append("the queried point is evaluated %d times" % len(evs))
-        if not rets or text(TS.expand(rets[-1].value, at=rets[-1], skip=(iv,))) != iv + ".costs_signed[0]":
-            problems.append("the optimiser receives %s instead of the signed cost costs_signed[0]" % (text(rets[-1].value) if rets else "nothing"))
-        elif evs and body.index(rets[-1]) < evs[0]:
-            problems.append("returns before evaluating")
-    if problems:
+            def fpath(c, i):
+                # the called path with local aliases (problem = self.algorithm.problem) looked through
+                return access_path(env.expand_at(c.func, i)) or ""
+            rec = [i for i, s in stmts_ if any(fpath(c, i).endswith(".problem.individuals.append") and c.args and access_path(c.args[0]) == iv for c in calls_in(s))]
+            evs = [i for i, s in stmts_ for c in calls_in(s) if fpath(c, i).endswith(".evaluate") and "job" in fpath(c, i)]
+            if evs and not any(fpath(c, i) == selfn + ".job.evaluate" and c.args and access_path(c.args[0]) == iv for i, s in stmts_ for c in calls_in(s)):
+                pp.append("the evaluated object is not the recorded individual")
+            if len(rec) != 1:
+                pp.append("the queried point is recorded %d times in problem.individuals" % len(rec))
+            if len(evs) != 1:
+                pp.append("the queried point is evaluated %d times" % len(evs))
+            rv = p.node.value if p.outcome == "return" and isinstance(p.node, ast.Return) else None
+            if rv is None:
+                pp.append("the optimiser receives nothing")
+            else:
+                env_, dirty_ = env.final
+                got = env.expand(rv, env=env_, dirty=dirty_, skip=(iv,))
+                plain = text(rv)
+                if text(got) != iv + ".costs_signed[0]" and plain != iv + ".costs_signed[0]":
+                    pp.append("the optimiser receives %s instead of the signed cost %s.costs_signed[0] of the point it queried" % (plain, iv))
+        if pp and p.outcome == "return" and isinstance(p.node, ast.Return) and p.node.value is not None:
+            # an answer taken from a table of earlier answers: exact when the table is keyed by the queried point itself (a
+            # repeated query then gets the cost recorded for that very point - whether it has to be recorded a second time
+            # the property does not say), wrong when distinct points share a key
+            rv_ = p.node.value
+            holder = access_path(rv_.value.value) if isinstance(rv_, ast.Subscript) and isinstance(rv_.value, ast.Attribute) and rv_.value.attr == "costs_signed" else None
+            look = [(i, s) for i, s in stmts_ if isinstance(s, ast.Assign) and holder and access_path(s.targets[0]) == holder
+                    and (isinstance(s.value, ast.Subscript) or (isinstance(s.value, ast.Call) and isinstance(s.value.func, ast.Attribute) and s.value.func.attr == "get" and s.value.args))]
+            if look:
+                i_, s_ = look[-1]
+                key = s_.value.slice if isinstance(s_.value, ast.Subscript) else s_.value.args[0]
+                kt = env.expand_at(key, i_)
+                names = {(access_path(c.func) or "").split(".")[-1] for c in ast.walk(kt) if isinstance(c, ast.Call)}
+                lossy = names & {"round", "around", "round_", "floor", "ceil", "trunc", "int", "rint", "format", "float32", "float16"} \
+                    or any(isinstance(n_, (ast.JoinedStr, ast.FloorDiv, ast.Mod)) for n_ in ast.walk(kt))
+                if lossy:
+                    pp = ["the answer comes from a table of earlier answers keyed by %s: distinct queried points that agree after %s share one entry, so a point is never "
+                          "evaluated or recorded and the optimiser receives the cost of another point" % (text(kt)[:120], "/".join(sorted(lossy)) if isinstance(lossy, set) else "formatting")]
+                elif names <= {"tuple", "list", "tobytes", "str", "repr"} and vec in {n_.id for n_ in ast.walk(kt) if isinstance(n_, ast.Name)}:
+                    unknown_memo = "repeated queries are answered from a table keyed by the exact queried point (%s): not recorded a second time" % text(kt)[:100]
+                    pp = []
+        if pp and not problems:
+            problems = [x + " (path [%s])" % p.describe(5) for x in pp[:2]]
+    if npaths == 0:
+        ctx.inconclusive("R5", C, where(mod, fn), "no returning path found")
+    elif not problems and unknown_memo:
+        ctx.inconclusive("R5", C, where(mod, fn), unknown_memo)
+    elif problems:
         ctx.violated("R5", C, where(mod, fn), "; ".join(problems))
     else:
         ctx.holds("R5", C, where(mod, fn), "records the point, evaluates it once, returns costs_signed[0]")
